@@ -40,7 +40,7 @@ _src = os.environ.get("VERIF_PYHF_SRC")
 if _src:
     sys.path.insert(0, _src)
 
-from vlib.ctx import Collector, Ctx, Discard, _clean  # noqa: E402
+from vlib.ctx import Collector, Ctx, Discard, _clean, raised_inside_pyhf  # noqa: E402
 
 
 def derive_seed(seed, prop, shard_name):
@@ -71,9 +71,16 @@ def one_case(mod, shard, case, collector):
     except Discard as d:
         collector.add_discard(d.reason)
         return None
-    except Exception as exc:  # noqa: BLE001 - harness error, reported as such (exit 2)
-        collector.add_harness_error(case, exc)
-        return None
+    except Exception as exc:  # noqa: BLE001
+        # Every generated input is valid by construction and rejections that a property expects are handled inside
+        # the property: an exception raised *inside pyhf* that escapes is a finding (root-cause bucketed by type and
+        # innermost pyhf frame).  A failed minimisation is pyhf's documented way to give up on a hard fit and stays
+        # what it is where a property does not treat it; anything raised by the harness itself is a harness error.
+        w = raised_inside_pyhf(exc)
+        if w is None or type(exc).__name__ == "FailedMinimization":
+            collector.add_harness_error(case, exc)
+            return None
+        ctx.fail(f"{mod.ID}/unexpected_exception/{type(exc).__name__}@{w[0]}:{w[1]}", message=str(exc)[:300])
     collector.add(case, ctx)
     return ctx
 
